@@ -669,6 +669,11 @@ def g3(a: fp.Real, b: fp.Real) -> fp.Real:
     c = a * b
     d = c + a
     return d - b
+
+
+@fp.fpy
+def g4(i: fp.Real) -> fp.Real:
+    return i + 0
 """
 
 
@@ -695,7 +700,7 @@ class ProgGen:
     def stmt(self, depth, ind, scope):
         rng = self.rng
         pad = '    ' * ind
-        kinds = ['asg', 'asg', 'call', 'rnd', 'rnd']
+        kinds = ['asg', 'asg', 'call', 'rnd', 'rnd', 'idx']
         if depth > 1:
             kinds += ['for', 'for', 'forlit', 'forlit', 'while', 'while', 'if1', 'ifelse']
         k = rng.choice(kinds)
@@ -709,6 +714,20 @@ class ProgGen:
             if form == 1:
                 return [f'{pad}p = g2(a) + g1({src} * {self.const()})']
             return [f'{pad}p = g3(a, g2({src})) + {self.const()}']
+        if k == 'idx':
+            # statements holding several expressions: candidate sites in a subscript and in the stored value,
+            # in the list and the index of a reference, in the parts of a conditional expression
+            form = rng.choice([0, 0, 1, 2, 3, 4])
+            c = self.const()
+            if form == 0:
+                return [f'{pad}ys[g4(1)] = g1({src} + {c})']
+            if form == 1:
+                return [f'{pad}ys[g4(g4(0))] = g2(a) + g3({src}, {c})']
+            if form == 2:
+                return [f'{pad}a = ys[g4(2)] + g1({src} * {c})']
+            if form == 3:
+                return [f'{pad}ys[g4(0)] = ys[g4(1)] + g2({src} + {c})']
+            return [f'{pad}a = g1({src}) if g2(a) > {c} else g3(a, {src})']
         if k == 'rnd':
             ctx = rng.choice(['fp.FP16', 'fp.FP16', 'fp.FP32', 'fp.REAL', 'fp.MPFixedContext(-8)',
                               'fp.FixedContext(True, -4, 16)'])
@@ -739,7 +758,42 @@ class ProgGen:
         return '\n'.join([
             '@fp.fpy(ctx=fp.REAL)',
             f'def {name}(xs: list[fp.Real], x: fp.Real, y: fp.Real) -> fp.Real:',
-            '    a = 0.0', '    p = 0.0', '    q = 0.0'] + body + ['    return a + p + q']) + '\n'
+            '    a = 0.0', '    p = 0.0', '    q = 0.0', '    ys = [0.0, 0.0, 0.0]'] + body + ['    return a + p + q + ys[0]']) + '\n'
+
+    def round_program(self, name):
+        """A program for `insert_round`: exact operations under `fp.REAL`, also inside the iterable of a
+        `for`, the condition of an `if` / `while`, each followed by more statements."""
+        rng = self.rng
+        body = ['        acc = 0.0']
+        n = 0
+        for _ in range(rng.randint(2, 4)):
+            n += 1
+            k = rng.choice(['op', 'op', 'for-iter', 'for-iter', 'for-body', 'if-cond', 'while-cond', 'abs'])
+            a, b = rng.choice(['x', 'y']), rng.choice(['x', 'y'])
+            if k == 'op':
+                body.append(f'        t{n} = {a} * {b}')
+                body.append(f'        acc = acc + t{n}')
+            elif k == 'abs':
+                body.append(f'        t{n} = abs({a})')
+                body.append(f'        acc = acc + t{n} * {b}')
+            elif k == 'for-iter':
+                body.append(f'        for v{n} in [{a} * {b}, {b}]:')
+                body.append(f'            acc = acc + v{n}')
+            elif k == 'for-body':
+                body.append(f'        for v{n} in [{a}, {b}]:')
+                body.append(f'            w{n} = v{n} * {a}')
+                body.append(f'            acc = acc + w{n}')
+            elif k == 'if-cond':
+                body.append(f'        if {a} * {b} > {self.const()}:')
+                body.append(f'            acc = acc + {a}')
+            else:
+                body.append(f'        while {a} * {b} > acc:')
+                body.append(f'            acc = acc + {self.const()}')
+        body.append(f'        z = abs(y)')
+        body.append(f'        c = z * y')
+        return '\n'.join(['@fp.fpy(ctx=fp.FP64)', f'def {name}(x: fp.Real, y: fp.Real) -> fp.Real:',
+                          '    with fp.REAL:'] + body + ['    return acc + c']) + '\n'
+
 
 
 class Interner:
@@ -778,6 +832,7 @@ def strategies_table():
     tab.append(('float_to_fixed', S.float_to_fixed, {}, {}, 'ContextStmt', 0))
     tab.append(('rescale_fixed', S.rescale_fixed, {}, {}, 'ContextStmt', 0))
     tab.append(('insert_round[FP32]', S.insert_round, dict(ctx=fp.FP32), dict(ctx=fp.FP32), None, 0))
+    tab.append(('insert_round[FP64]', S.insert_round, dict(ctx=fp.FP64), dict(ctx=fp.FP64), None, 0))
     tab.append(('inline', S.inline, {}, {}, 'Call', 0))
     tab.append(('inline[nonrec]', S.inline, {}, dict(recursive=False), 'Call', 0))
     return tab
@@ -897,8 +952,21 @@ def part_bc(ck, im, rng, cases, n_progs, n_seqs):
         depth = rng.choice([1, 2, 2, 3])
         texts.append(gen.program(f'p{k}', depth, rng.choice([2, 3, 4])))
         names.append(f'p{k}')
+    n_round = max(3, n_progs // 3)
+    rnames = [f'r{k}' for k in range(n_round)]
+    texts += [gen.round_program(nm) for nm in rnames]
     mod = im.load(texts, prelude=HELPERS)
     progs = [getattr(mod, n) for n in names]
+    # pinned to FP32 arguments, so that products are exactly representable in FP64 (`insert_round` has sites)
+    from fpy2.types import RealType
+    round_progs = set()
+    for nm in rnames:
+        try:
+            progs.append(S.monomorphize(getattr(mod, nm), fp.FP64, [RealType(fp.FP32)] * 2))
+            round_progs.add(len(progs) - 1)
+            ck.count('C:round-programs')
+        except Exception as ex_:  # noqa: BLE001
+            ck.count(f'C:round-program-not-monomorphized:{type(ex_).__name__}')
 
     def order_key(f):
         keys = {}
@@ -915,7 +983,7 @@ def part_bc(ck, im, rng, cases, n_progs, n_seqs):
         return keys[('s', im.un_spath(cur.path))]
 
     # ------------------------------------------------------------ part C
-    for f in progs:
+    for fi, f in enumerate(progs):
         keys, ex = order_key(f)
         intern = Interner()
         tree_hdr = im.tree_p(f.ast, lambda sp, s: intern(header(s)))
@@ -939,7 +1007,9 @@ def part_bc(ck, im, rng, cases, n_progs, n_seqs):
             if set(skeys) & set(rkeys) or skeys != sorted(skeys) or rkeys != sorted(rkeys) or len(set(skeys)) != k:
                 ck.violation(f'C:{sname}: sites and refusals overlap or are out of visit order',
                              {'program': f.format(), 'sites': [str(c) for c in Ss], 'refusals': [str(c) for c in Rs]})
-            if ckind in ('ForStmt', 'WhileStmt', 'ContextStmt'):
+            if ckind in ('ForStmt', 'WhileStmt', 'ContextStmt') and not (ckind == 'ContextStmt' and fi in round_progs):
+                # (in the generated programs every `with` is a rounding block, except the `with fp.REAL`
+                #  that wraps a program of the round family)
                 expect = sorted(keys[('s', im.un_spath(sp))] for sp, s in P.walk_stmts(f.ast) if type(s).__name__ == ckind)
                 if sorted(skeys + rkeys) != expect:
                     ck.violation(f'C:{sname}: sites + refusals do not account for every `{ckind}`',
